@@ -55,7 +55,12 @@ fn ask(i: usize, line: &str) -> Option<String> {
             r[i] = None;
             return None;
         }
-        Some(out.trim_end().to_string())
+        let line_out = out.trim_end().to_string();
+        if line_out == "TIMEOUT" {
+            let _ = runner.child.wait();
+            r[i] = None;
+        }
+        Some(line_out)
     })
 }
 
@@ -101,16 +106,26 @@ fn gen(src: &mut Src, tier: Tier) -> Case {
 pub fn check(case: &Case, l: &mut Local) -> Verdict {
     let fl = Fl::parse(&case.flags);
     // pre-screen with the fuel hook in this (default-feature) process: runaway cases are not sent to the runners
-    if let Ok(re) = compile(&case.pat, fl, false) {
-        let lim = match_limit(&case.hay, case.start) + 4;
-        for eng in [Engine::Bt, Engine::Pike] {
-            if find_all(&re, eng, Enc::Utf8, &case.hay, case.start, lim, 300_000).is_cut() {
-                return Verdict::Skip("cut_by_fuel");
+    // (everything the runners do: both pipelines, both executors, the ASCII entry point, and a scan from 0 for replace_all)
+    for no_opt in [false, true] {
+        match compile(&case.pat, fl, no_opt) {
+            Ok(re) => {
+                for start in [case.start, 0] {
+                    let lim = match_limit(&case.hay, start) + 4;
+                    for eng in [Engine::Bt, Engine::Pike] {
+                        for enc in [Enc::Utf8, Enc::Ascii] {
+                            if enc == Enc::Ascii && !case.hay.is_ascii() {
+                                continue;
+                            }
+                            if find_all(&re, eng, enc, &case.hay, start, lim, 200_000).is_cut() {
+                                return Verdict::Skip("cut_by_fuel");
+                            }
+                        }
+                    }
+                }
             }
-        }
-    } else if let Err(e) = compile(&case.pat, fl, false) {
-        if is_infra_err(&e) {
-            return Verdict::Skip("compile_infra");
+            Err(e) if is_infra_err(&e) => return Verdict::Skip("compile_infra"),
+            Err(_) => {}
         }
     }
     let line = json!({"p": case.pat, "f": case.flags, "h": case.hay, "s": case.start, "t": case.x["template"].as_str().unwrap_or("")}).to_string();
@@ -118,12 +133,16 @@ pub fn check(case: &Case, l: &mut Local) -> Verdict {
         Some(b) => b,
         None => return Verdict::Fail("the default-feature runner died on this case".into()),
     };
+    if base == "TIMEOUT" {
+        return Verdict::Skip("runner_wall_clock_timeout(inconclusive)");
+    }
     if base.starts_with("PANIC") {
         return Verdict::Fail(format!("default configuration panicked: {}", base));
     }
     for i in 1..CONFIGS.len() {
         match ask(i, &line) {
             None => return Verdict::Fail(format!("runner built with '{}' died on a case the default build handles", CONFIGS[i])),
+            Some(r) if r == "TIMEOUT" => return Verdict::Skip("runner_wall_clock_timeout(inconclusive)"),
             Some(r) if r != base => {
                 return Verdict::Fail(format!("configuration '{}' differs from default: {} <<>> {}", CONFIGS[i], r.chars().take(300).collect::<String>(), base.chars().take(300).collect::<String>()));
             }
